@@ -178,7 +178,12 @@ def rule_defaults(col, facts):
             col.check(R, "%s:%s" % (f.short.replace(WF, ""), g), dv[g] <= base[g] or not dv[g],
                       "default %s = %s here but buffer_size_const assumes %s: the documented bound no longer matches the notation choice" % (g, sorted(dv[g]), sorted(base[g])), f.loc())
     col.floor(R, "writers with notation defaults", n, 1)
-    cb = facts.fn(WF + "write::check_buffer")
+    cb = facts.fn(WF + "write::check_buffer", required=False)
+    if cb is None:
+        # the helper was inlined: MPT-validate (fmt.buffer_checked) reads the comparison with buffer_size_const
+        # in WriteFloat::write_float itself
+        col.note("PAIR-defaults: no check_buffer helper - the in-place comparison is decided by MPT-validate")
+        return
     calls = [callee_name(c) for _b, c, _a, _d, _t in cb.calls()]
     col.check(R, "check_buffer", calls == [WF + "options::Options::buffer_size_const"], "check_buffer sizes through %s" % calls, cb.loc())
     # len >= size
